@@ -62,6 +62,11 @@ def gen_int(form, t, domain, tier):
         for i_ in range(CAP):
             b.append("    if %d < cols && %d < n { if (rd(%d) as %s) != aw + (%d as %s) * sw { ok = false; } }" % (i_, i_, i_, w, i_, w))
         b.append("    assert!(ok, \"VP:wrong-element\");")
+        # re-evaluation (C19): a second solve() with unchanged inputs leaves the last element as it was
+        b.append("    let last0 = if cols >= 1 { rd(cols - 1) } else { a };")
+        b.append("    f.solve();")
+        b.append("    let last1 = if cols >= 1 { rd(cols - 1) } else { a };")
+        b.append("    assert!(last0 == last1 && *ac.borrow() == a && *ec.borrow() == e, \"VP:second-solve-differs\");")
         b.append("    kani::cover!(true, \"VP:reached\");")
         b.append("    forget(v); forget(f);")
         b.append("  }")
@@ -90,6 +95,8 @@ def gen_int(form, t, domain, tier):
           bounds=bounds, unwind=CAP + 2, tier=tier, group=form, solver="kissat")
     h.rec_limit = 1
     h.heavy = True
+    # per-kind feature slice (as in C01): under default features the dispatch function carries 12 kinds x fixed-size output forms
+    h.slice = ",".join(["bool", "string", "matrixd", "vectord", "row_vectord", "functions", "compiler", t, "range_default"])
     return h
 
 
